@@ -72,7 +72,9 @@ def setup():
             orig = cls.__init__
 
             def init(self, *a, _orig=orig, _is_commit=cls.__name__.startswith("Immutable"), **kw):
-                which = "commit_n" if _is_commit else "n"
+                zone_of = a[0].zone if _is_commit else a[0]
+                if zone_of is _ALLOC.get("skip_zone"):
+                    return _orig(self, *a, **kw)
                 if _is_commit:
                     if _ALLOC["commit_n"] is not None and threadsim._ACTIVE is not None and threadsim._ACTIVE.current is not None and not _ALLOC["busy"]:
                         _ALLOC["busy"] = True
@@ -142,31 +144,37 @@ def gen_case(seed, tier):
         ops = []
         for _ in range(nops):
             if role == "w":
-                k = "w"
+                k = "w" if wl.random() < 0.92 else "w2"
             elif role == "r":
-                k = wl.choice(["r", "r", "d"])
+                k = wl.choice(["r", "r", "r", "d", "d", "a"])
             else:
-                k = wl.choice(["w", "r", "d"])
+                k = wl.choice(["w", "w", "r", "r", "d", "a", "w2"])
             if k == "w":
                 ops.append(
                     {
                         "k": "w",
                         "end": wl.choice(
-                            ["commit", "commit", "commit", "rollback", "exc", "with"]
+                            ["commit", "commit", "commit", "commit", "rollback", "exc", "with", "with", "baseexc"]
                         ),
                         "serial": wl.random() < 0.3,
                         "noop": wl.random() < 0.08,
+                        "nested2": wl.random() < 0.1,
                     }
                 )
             elif k == "r":
-                ops.append({"k": "r", "how": wl.choice(["with", "explicit"])})
+                ops.append({"k": "r", "how": wl.choice(["with", "explicit"]), "by": "id" if wl.random() < 0.25 else "latest", "hold": wl.choice([0, 0, 0, 2, 6, 15])})
+            elif k == "a":
+                # another thread reconfigures version retention while transactions run
+                ops.append({"k": "a", "limit": wl.choice([None, 1, 1, 2, 3, "default", "max1", "max2", "maxnone"])})
+            elif k == "w2":
+                ops.append({"k": "w2", "end": wl.choice(["commit", "commit", "rollback"])})
             else:
                 ops.append({"k": "d"})
         threads.append({"late": wl.random() < 0.25, "ops": ops})
     # make sure there is at least one writer and not everybody is late
     if not any(o["k"] == "w" for t in threads for o in t["ops"]):
         threads[0]["ops"].insert(
-            0, {"k": "w", "end": "commit", "serial": False, "noop": False}
+            0, {"k": "w", "end": "commit", "serial": False, "noop": False, "nested2": False}
         )
     if all(t["late"] for t in threads):
         threads[0]["late"] = False
@@ -214,6 +222,25 @@ class _Planned(Exception):
     """The exception a workload raises on purpose inside a `with` body."""
 
 
+class _PlannedBase(BaseException):
+    """The same, but not an Exception (KeyboardInterrupt, SystemExit, a cancellation)."""
+
+
+class _Policy:
+    """A pruning policy object of the check's own (so the one in force can be recognised)."""
+
+    def __init__(self, limit):
+        self.limit = limit
+
+    def __call__(self, zone, version):
+        if self.limit is None:
+            return False
+        return len(zone._versions) > self.limit
+
+
+USER_PHASES = ("idle", "open", "reading", "open2")
+
+
 class _World:
     """All bookkeeping of one run; oracles live here."""
 
@@ -225,6 +252,11 @@ class _World:
         self.nthreads = len(case["threads"])
         self.zone = _build_zone(self.cfg, self.nthreads)
         self.base_id = self.zone._versions[-1].id
+        # a second, unrelated zone used by the same threads: nothing of the write
+        # admission state may be shared between zones
+        self.zone2 = _build_zone({"zone": self.cfg["zone"], "relativize": self.cfg["relativize"], "filler": 0, "slots": 0, "max_versions": None}, 0)
+        self.open2 = []
+        self.commits2 = 0
         self.commits_invoked = 0
         self.commits_returned = 0
         self.admissions = []  # (thread idx, invocation no)
@@ -273,7 +305,19 @@ class _World:
                     "C12:write-txn-mismatch",
                     f"T{self.open[0].idx} has an open write transaction but zone._write_txn is something else",
                 )
-        in_api = cur.phase not in ("idle", "open", "reading")
+        if len(self.open2) > 1:
+            raise Violation("C12:two-writers-open", "threads %s all hold an open write transaction on the second zone" % [t.idx for t in self.open2])
+        if self.open2 and self.zone2._write_txn is not self.open2[0].data.get("txn2"):
+            raise Violation("C12:write-txn-mismatch", f"T{self.open2[0].idx} has an open write transaction on the second zone but its _write_txn is something else")
+        # version retention, at every step: a version pinned by an open reader is retained; and
+        # outside the lock the published node map is the newest version's
+        for rtxn in z._readers:
+            if rtxn.version not in z._versions:
+                raise Violation("C12:pinned-version-pruned", f"version {rtxn.version.id} of an open reader is no longer retained (retained: {[v.id for v in z._versions]})")
+        if not z._version_lock.held:
+            if z.nodes is not z._versions[-1].nodes:
+                raise Violation("C12:nodes-versions-disagree", "zone.nodes is not the newest retained version's node map while the zone lock is free")
+        in_api = cur.phase not in USER_PHASES
         prev = self._prev
         if prev is not None and prev[0] is not cur and prev[1]:
             # the previous thread was switched out inside a zone API call
@@ -283,7 +327,7 @@ class _World:
             waitable = info
             if kind == "block:lock":
                 owner = getattr(waitable, "owner", None)
-                if owner is not None and owner.phase in ("idle", "open", "reading"):
+                if owner is not None and owner.phase in USER_PHASES:
                     raise Violation(
                         "C12:lock-held-in-user-code",
                         f"T{cur.idx} ({cur.phase}) waits for the zone lock held by T{owner.idx} which is in user code ({owner.phase})",
@@ -402,6 +446,11 @@ class _World:
         for i in range(self.cfg["slots"]):
             s.yield_point("op")
             txn.replace(self.name(f"slot{i}"), self.txt(newc))
+        if op.get("nested2"):
+            # while holding this zone's write transaction, write to the other zone
+            self.second_zone_txn(t, "commit")
+            t.phase = "open"
+            self.res.probes.inc("second_zone_written_while_first_zone_txn_open")
         tag = f"{t.idx}-{n}"
         txn.replace(self.name(f"tag{t.idx}"), self.txt(tag))
         if op.get("serial"):
@@ -432,6 +481,12 @@ class _World:
             self._committed(t, tag, op)
         elif end == "rollback":
             txn.rollback()
+        elif end == "baseexc":
+            try:
+                with txn:
+                    raise _PlannedBase()
+            except _PlannedBase:
+                pass
         else:
             try:
                 with txn:
@@ -439,6 +494,52 @@ class _World:
             except _Planned:
                 pass
         t.phase = "idle"
+
+    def second_zone_txn(self, t, end):
+        z2 = self.zone2
+        s = self.sched
+        t.phase = "in_writer2"
+        s.yield_point("op")
+        txn = z2.writer()
+        t.data["txn2"] = txn
+        self.open2.append(t)
+        t.phase = "open2"
+        try:
+            if len(self.open2) > 1:
+                raise Violation("C12:two-writers-open", "threads %s all hold an open write transaction on the second zone" % [x.idx for x in self.open2])
+            counter = self.name("counter")
+            c = self.read_int(txn.get(counter, "TXT"))
+            if c != self.commits2:
+                raise Violation("C12:not-serial", f"second zone: T{t.idx} was admitted and read counter {c} but {self.commits2} commits had been made")
+            s.yield_point("op")
+            txn.replace(counter, self.txt(c + 1 if end == "commit" else c + POISON))
+            s.yield_point("op")
+        finally:
+            self.open2.remove(t)
+        t.phase = "ending2"
+        if end == "commit":
+            self.commits2 += 1
+            txn.commit()
+        else:
+            txn.rollback()
+        t.phase = "idle"
+        self.log.add("zone2", t.idx, end, self.commits2)
+
+    def admin_op(self, t, op, n):
+        z = self.zone
+        s = self.sched
+        s.yield_point("op")
+        lim = op["limit"]
+        t.phase = "admin"
+        if lim == "default":
+            z.set_pruning_policy(None)
+        elif isinstance(lim, str):
+            z.set_max_versions({"max1": 1, "max2": 2, "maxnone": None}[lim])
+        else:
+            z.set_pruning_policy(_Policy(lim))
+        t.phase = "idle"
+        self.res.probes.inc("retention_policy_changed_while_threads_run")
+        self.log.add("admin", t.idx, str(lim))
 
     def _committed(self, t, tag, op):
         self.commits_returned += 1
@@ -481,6 +582,31 @@ class _World:
         if z._write_txn is not None and self.open:
             self.res.probes.inc("reader_call_while_write_txn_open")
         t.phase = "reader_call"
+        if op.get("by") == "id":
+            # ask for the version this thread saw last (it may have been pruned meanwhile)
+            want = t.data.get("max_seen", 0)
+            try:
+                r = z.reader(id=self.base_id + want)
+            except KeyError:
+                t.phase = "idle"
+                self.res.probes.inc("reader_by_id_version_already_pruned")
+                self.log.add("reader_by_id_gone", t.idx, want)
+                return
+            t.phase = "reading"
+            self.log.add("reader_open_by_id", t.idx, want)
+            c = self.check_snapshot(t, r, 0)
+            if c != want:
+                raise Violation("C12:reader-bad-version", f"reader T{t.idx} asked for version id {self.base_id + want} and sees counter {c}")
+            self.res.probes.inc("reader_by_id_opened_old_version")
+            s.yield_point("op")
+            s.yield_point("op")
+            if r.version not in z._versions:
+                raise Violation("C12:pinned-version-pruned", f"version {r.version.id} of an open reader is no longer retained")
+            t.phase = "reader_end"
+            r.rollback()
+            t.phase = "idle"
+            self.log.add("reader_closed", t.idx, c)
+            return
         r = z.reader()
         t.phase = "reading"
         self.log.add("reader_open", t.idx)
@@ -493,6 +619,11 @@ class _World:
             )
         t.data["max_seen"] = c
         s.yield_point("op")
+        # a reader that stays open for a while (other threads commit, open newer readers, prune)
+        for _ in range(op.get("hold", 0)):
+            s.yield_point("op")
+        if op.get("hold") and self.commits_returned > c:
+            self.res.probes.inc("long_reader_outlived_a_commit")
         # the snapshot must not move while commits go on
         c2 = self.read_int(r.get(self.name("counter"), "TXT"))
         if c2 != c:
@@ -538,6 +669,10 @@ class _World:
                     self.writer_op(t, op, n)
                 elif op["k"] == "r":
                     self.reader_op(t, op, n)
+                elif op["k"] == "a":
+                    self.admin_op(t, op, n)
+                elif op["k"] == "w2":
+                    self.second_zone_txn(t, op["end"])
                 else:
                     self.direct_op(t, op, n)
         except (Violation, threadsim._Abort):
@@ -595,6 +730,16 @@ class _World:
             raise Violation("C12:version-id", f"retained version ids {ids}")
         if z.nodes is not z._versions[-1].nodes:
             raise Violation("C12:end-state", "zone.nodes is not the newest version's node map")
+        pol = z._pruning_policy
+        if isinstance(pol, _Policy) and pol.limit is not None and len(ids) > max(1, pol.limit):
+            raise Violation("C12:retention", f"{len(ids)} versions retained after all transactions ended although the policy in force allows {pol.limit}")
+        z2 = self.zone2
+        if z2._write_txn is not None or len(z2._write_waiters) != 0 or z2._write_event is not None or len(z2._readers) != 0 or z2._version_lock.held:
+            raise Violation("C12:end-state", "the second zone's admission state is not at rest after all threads ended")
+        with z2.reader() as r:
+            c = self.read_int(r.get(self.name("counter"), "TXT"))
+            if c != self.commits2:
+                raise Violation("C12:lost-update", f"second zone: final counter {c} != number of committed transactions {self.commits2}")
 
     def _apex(self):
         import dns.name
@@ -623,11 +768,13 @@ def run_case(case, keep_log=False):
     _ALLOC["fired"] = 0
     _ALLOC["fired_commit"] = 0
     _ALLOC["failed_inv"] = set()
+    _ALLOC["skip_zone"] = world.zone2
     try:
         failure = sched.run()
     finally:
         _ALLOC["n"] = None
         _ALLOC["commit_n"] = None
+        _ALLOC["skip_zone"] = None
     res.faults.inc("alloc_failure_in_version_setup", _ALLOC["fired"])
     res.faults.inc("alloc_failure_at_commit", _ALLOC["fired_commit"])
     if failure is None:
@@ -652,7 +799,7 @@ def run_case(case, keep_log=False):
     res.faults.inc("context_switch", sched.switches)
     for spec in case["threads"]:
         for op in spec["ops"]:
-            if op["k"] == "w" and op["end"] in ("rollback", "exc"):
+            if op["k"] == "w" and op["end"] in ("rollback", "exc", "baseexc"):
                 res.faults.inc("txn_abort_" + op["end"])
     res.trace = {"schedule": sched.recorded}
     if keep_log:
@@ -696,9 +843,17 @@ def shrink(case):
             c["threads"][i]["late"] = False
             yield c
         for j, op in enumerate(t["ops"]):
-            if op["k"] == "w" and (op["end"] != "commit" or op["serial"] or op.get("noop")):
+            if op["k"] == "w" and (op["end"] != "commit" or op["serial"] or op.get("noop") or op.get("nested2")):
                 c = copy.deepcopy(case)
-                c["threads"][i]["ops"][j] = {"k": "w", "end": "commit", "serial": False, "noop": False}
+                c["threads"][i]["ops"][j] = {"k": "w", "end": "commit", "serial": False, "noop": False, "nested2": False}
+                yield c
+            if op["k"] == "r" and op.get("by") == "id":
+                c = copy.deepcopy(case)
+                c["threads"][i]["ops"][j]["by"] = "latest"
+                yield c
+            if op["k"] == "r" and op.get("hold"):
+                c = copy.deepcopy(case)
+                c["threads"][i]["ops"][j]["hold"] = op["hold"] // 2
                 yield c
     cfg = case["cfg"]
     if case.get("alloc_fail_commit") is not None and case["alloc_fail_commit"] > 1:
@@ -742,6 +897,11 @@ EXPECTED_PROBES = [
     "commit_without_change",
     "writer_setup_failed_zone_must_stay_usable",
     "commit_failed_zone_must_stay_usable",
+    "retention_policy_changed_while_threads_run",
+    "reader_by_id_opened_old_version",
+    "long_reader_outlived_a_commit",
+    "reader_by_id_version_already_pruned",
+    "second_zone_written_while_first_zone_txn_open",
 ]
 
 
